@@ -82,6 +82,21 @@ simple("C19", "fault_enumeration",
        batches=(4, 4), timeout=(900, 3000))
 
 
+simple("C06", "exploration",
+       "seeded random curves evaluated through the real curve objects over scripted sensors: linear min/max and step curves at boundary temperatures (+-0.5/1 m-degree, "
+       "+-1 degree), +-0, +-1e-300, +-1e300, +-MaxFloat64/4 and random values against a float64 reference (|v - lerp| < 1 resp. <= 0.5+1e-3); function trees (6 types, 1..8 members, "
+       "depth <= 4, shared stateless leaves) checked compositionally at every node in exact integers; PID curves against an independent model of the loop on a virtual clock "
+       "(dt 1 ms..1 h); non-trivial: linear curve hit all three regions / step curve with >= 2 steps / function tree / PID trajectory with an unsaturated output; distinct by content hash",
+       TRUST_L1 + ["PID cases whose pre-truncation value is within 1e-9 of an integer are skipped and counted", "dt > 0 (dt = 0 is exercised under C01)"])
+
+simple("C07", "exploration",
+       "seeded random monotone configurations: linear min/max, step sets with non-decreasing speeds, sum/max/min/average trees (depth <= 3) over such members sharing or not sharing "
+       "sensors (all sensors rising together, or one rising with the others fixed); the temperature is swept upward on a grid of 1 m-degree near every boundary (+-200 m-degree) and "
+       "100 m-degree elsewhere and the output must never decrease; controller part: curve value 0..255 -> (request, device PWM) with the direct algorithm over random limits and "
+       "non-decreasing PWM maps; non-trivial = the output rose at least once during the sweep; distinct by configuration hash",
+       TRUST_L1)
+
+
 def setup():
     """Warm the Go build cache: build the harness (plain and -race) and the daemon once."""
     t0 = time.time()
